@@ -245,9 +245,9 @@ Proof.
   destruct (Nat.eqb_spec v v0); [|discriminate]. inversion H; subst; auto.
 Qed.
 
-Lemma impl_agree : forall b n a a' c, cscoped n c -> agree n a a' -> impl_gen b c a' = impl_gen b c a.
+Lemma impl_agree : forall n a a' c, cscoped n c -> agree n a a' -> impl_cons c a' = impl_cons c a.
 Proof.
-  intros b n a a'; induction c; simpl; intros Hs Ha.
+  intros n a a'; induction c; simpl; intros Hs Ha.
   - destruct Hs as [H1 H2].
     rewrite (eval_agree n a a' l H1 Ha), (eval_agree n a a' r H2 Ha).
     reflexivity.
@@ -661,7 +661,7 @@ Qed.
 Lemma impl_bin_true : forall l op r a, impl_cons (CBin l op r) a = true <->
   exists x y, eval_expr l a = Some x /\ eval_expr r a = Some y /\ cmp_sem op x y = true.
 Proof.
-  intros l op r a; unfold impl_cons; cbn [impl_gen].
+  intros l op r a; cbn [impl_cons].
   destruct (eval_expr l a) as [x|]; [destruct (eval_expr r a) as [y|]|].
   - split.
     + intros H1; exists x, y; auto.
@@ -774,19 +774,19 @@ Proof.
     { destruct l; try discriminate; destruct r; try discriminate. simpl in Hl.
       rewrite materialize_var_val by exact Hl.
       eapply step_weaken; [|apply (mat_var_val_ok false v op c st Hl)].
-      intro a; unfold impl_cons; simpl. tauto. }
+      intro a; simpl. tauto. }
     destruct (is_val l && is_var r) eqn:E2.
     { destruct l; try discriminate; destruct r; try discriminate. simpl in Hr.
       rewrite materialize_val_var by exact Hr.
       eapply step_weaken; [|apply (mat_var_val_ok true v op c st Hr)].
-      intro a; unfold impl_cons; simpl. tauto. }
+      intro a; simpl. tauto. }
     rewrite materialize_gen by assumption. apply mat_gen_ok; assumption.
   - destruct Hs as [H1 H2]. cbn [materialize].
     eapply step_weaken; [|eapply step_trans; [|apply IHc1; exact H1|apply IHc2]].
-    + intro a; unfold impl_cons; cbn [impl_gen]. rewrite andb_true_iff. reflexivity.
-    + intros a a' Ha. unfold impl_cons. rewrite (impl_agree false _ a a' c2 H2 Ha). auto.
+    + intro a; cbn [impl_cons]. rewrite andb_true_iff. reflexivity.
+    + intros a a' Ha. cbv beta. rewrite (impl_agree _ a a' c2 H2 Ha). auto.
     + eapply cscoped_le; [|exact H2]. apply (st_n _ _ _ (IHc1 st H1)).
-  - destruct Hs as [H1 H2]. cbn [materialize]. unfold impl_cons; cbn [impl_gen].
+  - destruct Hs as [H1 H2]. cbn [materialize]. cbn [impl_cons].
     destruct (or_eq_pattern c1 c2) as [[[x l] r]|] eqn:E.
     + apply or_eq_pattern_some in E. destruct E as [-> ->]. simpl in H1. destruct H1 as [Hx _].
       cbn [new_var fst snd].
@@ -806,12 +806,12 @@ Proof.
            apply orb_true_iff in Hor. destruct Hor as [H|H]; apply Z.eqb_eq in H; rewrite H; simpl; auto.
         -- apply allsat_one. simpl. rewrite upd_same, (An x Hx). apply Z.eqb_refl.
     + eapply step_weaken; [|eapply step_trans; [|apply IHc1; exact H1|apply IHc2]].
-      * intro a; unfold impl_cons. rewrite andb_true_iff. reflexivity.
-      * intros a a' Ha. unfold impl_cons. rewrite (impl_agree false _ a a' c2 H2 Ha). auto.
+      * intro a; rewrite andb_true_iff. reflexivity.
+      * intros a a' Ha. cbv beta. rewrite (impl_agree _ a a' c2 H2 Ha). auto.
       * eapply cscoped_le; [|exact H2]. apply (st_n _ _ _ (IHc1 st H1)).
   - cbn [materialize]. apply IHc; exact Hs.
   - cbn [materialize]. apply step_push; [apply lin_desc_scoped; exact Hs|].
-    intro a. rewrite lin_desc_sat. unfold impl_cons; simpl. reflexivity.
+    intro a. rewrite lin_desc_sat. simpl. reflexivity.
 Qed.
 
 (* ---- how lowering changes the store: variables are appended; an existing domain is left alone
@@ -990,8 +990,8 @@ Proof.
     + intro a; split.
       * intros [Hc Hr] c0 [<-|Hin]; auto.
       * intro Hall; split; [apply Hall; left; reflexivity|intros c0 Hin; apply Hall; right; exact Hin].
-    + intros a a' Ha Hall c0 Hin. rewrite Forall_forall in H3. unfold impl_cons.
-      rewrite (impl_agree false _ a a' c0 (H3 c0 Hin) Ha). apply Hall; exact Hin.
+    + intros a a' Ha Hall c0 Hin. rewrite Forall_forall in H3.
+      rewrite (impl_agree _ a a' c0 (H3 c0 Hin) Ha). apply Hall; exact Hin.
 Qed.
 
 (* ---- the posting phase ---- *)
@@ -1044,7 +1044,7 @@ Section Build.
     - intros a Hi Hall N.
       destruct (Co a Hi (fun c0 H => Hall c0 (in_or_app _ _ _ (or_introl H))) (Hne N)) as [a1 [A1 [I1 Sat1]]].
       assert (Him : impl_cons c a1 = true).
-      { unfold impl_cons. rewrite (impl_agree false n a a1 c Hc A1). fold (impl_cons c a). rewrite Heq.
+      { cbv beta. rewrite (impl_agree n a a1 c Hc A1). rewrite Heq.
         apply Hall. apply in_or_app; right; left; reflexivity. }
       destruct (Cos a1 I1 Him N) as [a2 [A2 [I2 Sat2]]].
       exists a2. split; [eapply agree_trans; [|exact A1|exact A2]; exact L|]. split; [exact I2|].
@@ -1239,7 +1239,7 @@ Section BuildPosts.
         destruct l, op, r; try discriminate K2;
         (match goal with |- impl_cons ?c a = _ =>
            assert (E : eval_cons c a = Some (impl_cons (to_linear c) a)) by (eapply impl_lin_eval; reflexivity) end;
-         simpl in E; inversion E as [E']; unfold impl_cons at 1; cbn [impl_gen eval_expr]; exact E'). }
+         simpl in E; inversion E as [E']; cbn [impl_cons eval_expr]; exact E'). }
       assert (P : post c m = mkms (materialize c (mst m)) (mpend m) (muser m) (mpanic m)).
       { destruct c as [l op r| | | |]; try discriminate K2. destruct l, op, r; try discriminate K2; reflexivity. }
       rewrite P. apply J_immediate; assumption.
@@ -1373,11 +1373,11 @@ Section Program.
       destruct (Sos a' Hi Hs2) as [Hi1 Hpend]. destruct (So a' Hi1 Hs1) as [Hi0 Hall].
       split; [|split; [|apply doms_nonempty_ne; eapply inst_ne; exact Hi]].
       + eapply inst_agree; [rewrite s0_len; apply agree_sym; exact A|exact Hi0].
-      + intros c Hc. unfold impl_cons. rewrite <- (impl_agree false n a a' c (Hsc c Hc) A). fold (impl_cons c a').
+      + intros c Hc. cbv beta. rewrite <- (impl_agree n a a' c (Hsc c Hc) A).
         destruct (Hall c Hc) as [Hin|Ht]; [apply Hpend; exact Hin|exact Ht].
     - intros [Hi [Hall N]]. apply doms_nonempty_ne in N. destruct (Co a Hi Hall (Hne N)) as [a1 [A1 [I1 Sat1]]].
       assert (Hp1 : forall c, In c (mpend m) -> impl_cons c a1 = true).
-      { intros c Hc. unfold impl_cons. rewrite (impl_agree false n a a1 c (Hsc c (Inc c Hc)) A1). apply Hall, Inc, Hc. }
+      { intros c Hc. cbv beta. rewrite (impl_agree n a a1 c (Hsc c (Inc c Hc)) A1). apply Hall, Inc, Hc. }
       destruct (Cos a1 I1 Hp1 N) as [a2 [A2 [I2 Sat2]]].
       exists a2. split; [eapply agree_trans; [|exact A1|exact A2]; exact L|]. split; [exact I2|].
       rewrite E. apply allsat_app; split; [eapply allsat_agree; eauto|exact Sat2].
@@ -1410,17 +1410,17 @@ Proof. intros p q a; unfold holds; simpl. destruct (eval_cons p a) as [[|]|], (e
 Lemma impl_holds : forall c a, kf_or_not c = false -> impl_cons c a = holds c a.
 Proof.
   induction c; intros a Hk; simpl in Hk.
-  - unfold impl_cons, holds; cbn [impl_gen eval_cons].
+  - unfold holds; cbn [impl_cons eval_cons].
     destruct (eval_expr l a), (eval_expr r a); cbn [obind]; try reflexivity.
     destruct (cmp_sem op z z0); reflexivity.
   - apply orb_false_iff in Hk. destruct Hk as [K1 K2].
-    rewrite holds_and. unfold impl_cons; cbn [impl_gen]. fold (impl_cons c1 a) (impl_cons c2 a).
+    rewrite holds_and. cbn [impl_cons].
     rewrite IHc1, IHc2 by assumption. reflexivity.
-  - unfold impl_cons; cbn [impl_gen]. destruct (or_eq_pattern c1 c2) as [[[x l] r]|] eqn:E; [|discriminate].
+  - cbn [impl_cons]. destruct (or_eq_pattern c1 c2) as [[[x l] r]|] eqn:E; [|discriminate].
     apply or_eq_pattern_some in E. destruct E as [-> ->]. unfold holds; simpl.
     destruct ((a x =? l) || (a x =? r)); reflexivity.
   - discriminate.
-  - unfold impl_cons, holds; simpl. destruct (cmp_sem op (lin_val cs xs a) k); reflexivity.
+  - unfold holds; simpl. destruct (cmp_sem op (lin_val cs xs a) k); reflexivity.
 Qed.
 
 Lemma kf_to_linear : forall c, kf_or_not (to_linear c) = kf_or_not c.
@@ -1471,7 +1471,7 @@ Section Denotes.
         - exists (to_linear (fold_cons c)). split; [reflexivity|]. exists c. split; [reflexivity|].
           rewrite stored_holds; [apply holds_true_iff|exact (Hc c (or_introl eq_refl))].
         - exists (CLinInt cs xs op k). split; [reflexivity|]. exists (CLinInt cs xs op k). split; [reflexivity|].
-          unfold impl_cons; simpl. split; [intros ->; reflexivity|intro E; inversion E; reflexivity]. }
+          simpl. split; [intros ->; reflexivity|intro E; inversion E; reflexivity]. }
       destruct Key as [f [Ef [c [Ec Eq]]]]. rewrite Ef. split.
       + intros H st' c' [<-|Hin] Hsc.
         * rewrite Ec in Hsc; inversion Hsc; subst c'. apply Eq. apply H; left; reflexivity.
@@ -1626,5 +1626,5 @@ Proof. eexists; eexists. split; vm_compute; reflexivity. Qed.
 Example outside_classes :
   let c := CAnd (CBin (ESub (EMul x0 x1) (EMul (EVal 2) x0)) OGe (EAdd x1 (EVal (-3))))
                 (CBin (EAdd x0 x0) OLt (EAdd (EMul x1 (EVal 3)) (EVal 1))) in
-  kf_or_not (fold_cons c) = false /\ kf_nested_ne c = false.
+  kf_or_not (fold_cons c) = false.
 Proof. vm_compute. auto. Qed.
